@@ -475,3 +475,38 @@ Example C16_nonvacuous_owner_deputy :
   swaps s = [mkSwap 3 5 0 10 true] /\
   class_of (step ex_env s (Submit 4 1 100 true)) = RErr.
 Proof. vm_compute. repeat split; reflexivity. Qed.
+
+(** ** issuance: the owner is per denom, and denoms are compared exactly
+    x/issuance params.go GetAsset returns the asset whose Denom is EQUAL to the denom of the message
+    ([find_asset]: [Nat.eqb] on the denom).  Coin denoms are case sensitive and the parameter
+    validation only refuses exact duplicates, so "usdtoken" (owner A, listed first) and "USDTOKEN"
+    (owner B) are two assets: A has no right on USDTOKEN, B is its principal, and handing over one
+    of them leaves the other as it is.  (The harness world lists such a pair in every history.) *)
+Theorem C16_issuance_owner_is_per_denom :
+  forall e s d d' x y,
+  find_asset s d = Some x -> find_asset s d' = Some y -> d <> d' ->
+  as_denom x = d /\ as_denom y = d' /\
+  (as_owner x <> as_owner y ->
+   (forall amt rcv, step e s (Issue (as_owner x) d' amt rcv) = Err) /\
+   (forall amt, step e s (Redeem (as_owner x) d' amt) = Err) /\
+   (forall c, step e s (Block (as_owner x) d' c) = Err) /\
+   (forall c, step e s (Unblock (as_owner x) d' c) = Err) /\
+   (forall st, step e s (SetPause (as_owner x) d' st) = Err)) /\
+  (forall amt rcv st c,
+     authorised e s (Issue (as_owner y) d' amt rcv) = true /\ authorised e s (Redeem (as_owner y) d' amt) = true /\
+     authorised e s (Block (as_owner y) d' c) = true /\ authorised e s (Unblock (as_owner y) d' c) = true /\
+     authorised e s (SetPause (as_owner y) d' st) = true) /\
+  (forall a s' out, admin_step e s (SetOwner d a) = Ok s' out -> find_asset s' d' = Some y).
+Proof. exact issuance_owner_is_per_denom. Qed.
+Print Assumptions C16_issuance_owner_is_per_denom.
+
+(* non-vacuity: denom 0 ("usdtoken") owned by user 2 and listed first, denom 1 ("USDTOKEN") owned
+   by user 3: user 3 issues denom 1, user 2 is refused, and the other way round for denom 0 *)
+Definition ex_twins : state :=
+  set_assets ex_state [mkAsset 0 2 false true [] false 0; mkAsset 1 3 false true [] false 0].
+Example C16_nonvacuous_owner_per_denom :
+  map (fun o => class_of (step ex_env ex_twins o))
+    [Issue 3 1 7 5; Issue 2 1 7 5; Issue 2 0 7 5; Issue 3 0 7 5; SetPause 3 1 true; SetPause 2 1 true]
+  = [ROk; RErr; ROk; RErr; ROk; RErr]
+  /\ (exists x y, find_asset ex_twins 0 = Some x /\ find_asset ex_twins 1 = Some y /\ as_owner x <> as_owner y).
+Proof. vm_compute. split; [reflexivity|]. eexists. eexists. repeat split; try reflexivity. discriminate. Qed.
